@@ -42,13 +42,17 @@ def gen_cases(tier, seed):
             yield "last_word_sweep", {"len": ln, "salt": rng.getrandbits(40)}
     for i in range(60 if q else 1500):
         yield "word_mutations", {"len": rng.choice(r39.VALID_ENT), "salt": rng.getrandbits(40)}
+    for i in range(45 if q else 600):
+        yield "cli", {"len": r39.VALID_ENT[i % 5], "salt": rng.getrandbits(40), "fmt": ["raw", "hex", "bin"][i % 3], "edge": [0x0A, 0x0D, 0x20, 0x00, 0x30, 0x78, 0x09, None][i % 8]}
+    for i in range(10 if q else 100):
+        yield "arg_types", {"len": r39.VALID_ENT[i % 5], "salt": rng.getrandbits(40)}
     for i in range(80 if q else 2000):
         yield "seed", {"len": rng.choice(r39.VALID_ENT), "salt": rng.getrandbits(40), "pp": i % len(PASSPHRASES), "extra": i // len(PASSPHRASES) % 2}
 
 
 def required(tier):
     return {"rt.decided": 700, "invalid_len.refused": 30, "sweep.words": 10000, "sweep.accepted": 200, "mut.decided": 1500,
-            "mut.class.non_list_word": 100, "mut.ref_accepts": 5, "seed.decided": 70, "seed.class.needs_nfkd": 20, "wordlist.pinned": 1}
+            "mut.class.non_list_word": 100, "mut.ref_accepts": 5, "seed.decided": 70, "seed.class.needs_nfkd": 20, "wordlist.pinned": 1, "cli.mnemonics": 35, "argtypes.calls": 15}
 
 
 def exhaustive(tier, counts):
@@ -190,6 +194,62 @@ def run_case(kind, params, ctx):
                 ctx.violation(f"to_entropy/accepts-invalid/{cls}", f"{mn!r} -> {got.hex()}")
             elif got is not None and got != r:
                 ctx.violation(f"to_entropy/wrong-entropy/{cls}", f"{mn!r} -> {got.hex()} != {r.hex()}")
+        return
+    if kind == "cli":
+        from . import clihelp
+        ent = bytearray(rand_bytes(rng, params["len"]))
+        if params["edge"] is not None:
+            ent[-1] = params["edge"]
+            if rng.random() < 0.5:
+                ent[0] = params["edge"]
+        ent = bytes(ent)
+        fmt = params["fmt"]
+        exp = " ".join(r39.mnemonic(ent, W))
+        ctx.count("cli.mnemonics")
+        ctx.seen("cli", (ent, fmt))
+        r = clihelp.run(["mnemonic", "--from-entropy", clihelp.fmt_flag(fmt)], clihelp.rep(ent, fmt))
+        if not r["ok"] or r["out"].decode(errors="replace").strip() != exp:
+            ctx.violation(f"cli/from-entropy-wrong/fmt:{fmt}/last-byte:{'text-framing' if params['edge'] is not None else 'any'}", f"bits mnemonic --from-entropy ({fmt}, entropy {ent.hex()}) printed {r['out'][:60]!r} (ret {r['ret']!r})")
+            return
+        # an entropy of a valid length plus one framing byte must be REFUSED, not silently trimmed
+        if fmt == "raw":
+            r3 = clihelp.run(["mnemonic", "--from-entropy", "-1"], ent + b"\n")
+            if r3["ok"] and r3["out"].strip():
+                ctx.violation("cli/from-entropy-accepts-invalid-length", f"{len(ent) + 1} raw bytes accepted: {r3['out'][:60]!r}")
+        for ofmt in ("hex", "raw", "bin"):
+            r2 = clihelp.run(["mnemonic", "--to-entropy", clihelp.out_flag(ofmt)], (exp + "\n").encode())
+            got = clihelp.parse_out(r2["out"], ofmt)
+            if not r2["ok"] or got != ent:
+                ctx.violation(f"cli/to-entropy-wrong/out:{ofmt}", f"bits mnemonic --to-entropy gave {r2['out'][:60]!r} for entropy {ent.hex()}")
+        pp = PASSPHRASES[rng.randrange(len(PASSPHRASES))]
+        r4 = clihelp.run(["mnemonic", "--to-seed", "-0x"], (exp + "\n").encode(), passphrase=pp)
+        manual, _ = r39.seed(exp, pp)
+        if not r4["ok"] or clihelp.parse_out(r4["out"], "hex") != manual:
+            ctx.violation("cli/to-seed-wrong", f"bits mnemonic --to-seed (passphrase {pp!r}) gave {r4['out'][:40]!r}")
+        return
+    if kind == "arg_types":
+        ent = rand_bytes(rng, params["len"])
+        exp = " ".join(r39.mnemonic(ent, W))
+        for typ in (bytearray, memoryview):
+            buf = bytearray(ent)
+            arg = buf if typ is bytearray else memoryview(buf)
+            ctx.count("argtypes.calls")
+            ctx.seen("argt", (ent, typ.__name__))
+            try:
+                got = b39.calculate_mnemonic_phrase(arg)
+            except Exception:
+                got = None      # refusing a non-bytes buffer is acceptable
+            if bytes(buf) != ent:
+                ctx.violation(f"argument-mutated/{typ.__name__}", f"calculate_mnemonic_phrase changed the caller's entropy buffer: {ent.hex()} -> {bytes(buf).hex()}")
+            if got is not None and got != exp:
+                ctx.violation(f"mnemonic/wrong/{typ.__name__}-argument", f"{got!r}")
+            if got is not None:
+                try:
+                    again = b39.calculate_mnemonic_phrase(arg)
+                    if again != exp:
+                        ctx.violation(f"mnemonic/second-call-differs/{typ.__name__}", f"{again!r}")
+                except Exception as e:
+                    ctx.violation(f"mnemonic/second-call-raises/{typ.__name__}", f"{type(e).__name__}: {e}")
         return
     if kind == "seed":
         ent = rand_bytes(rng, params["len"])
